@@ -92,14 +92,15 @@ def ambiguous (ok : Str → Bool) : Nat → Str → Bool
   | fuel + 1, c :: r =>
     (handlePrefix.isPrefixOf (c :: r) && ambiguousAt ok ((c :: r).drop handlePrefix.length)) || ambiguous ok fuel r
 
+/-- handles are printed under the model's own names (the harness names the real handles after
+    them, operation by operation); a handle counts as revealed when it was the WHOLE output of an
+    operation -/
 def see (names : List Str) (t : Table) (out : Str) : List Str :=
-  (occurrences (fun h => (tget t h).isSome) (out.length + 1) out).foldl
-    (fun ns h => if ns.contains h then ns else ns ++ [h]) names
+  if (tget t out).isSome && !names.contains out then names ++ [out] else names
 
 def rankOf (names : List Str) (h : Str) : Nat := (names.takeWhile (· ≠ h)).length + 1
 
-def rename (names : List Str) (s : Str) : Str :=
-  scan (fun h => names.contains h) (fun h => handlePrefix ++ (toString (rankOf names h)).toList) (s.length + 1) s
+def rename (_names : List Str) (s : Str) : Str := s
 
 /-! ### running -/
 
@@ -127,7 +128,7 @@ def pushVal (r : Run) (st : ScriptSt) (o : Option Str) : Run :=
   match o with
   | some v =>
     let names := see r.names st.coll.tbl v
-    let amb := ambiguous (fun h => (tget st.coll.tbl h).isSome || names.contains h) (v.length + 1) v
+    let amb := false
     { r with st := st, raw := r.raw.push (.val (some v)), outs := r.outs.push (encStr (rename names v)), names := names,
              ambig := r.ambig || amb }
   | none => { r with st := st, raw := r.raw.push (.val none), outs := r.outs.push "-" }
@@ -170,19 +171,6 @@ def stepCore (r : Run) : DOp → Run
       | _ => { r with st := st', raw := r.raw.push .err, outs := r.outs.push "?" }
     | none =>
       let (c', res) := exec r.st.coll c args
-      -- `map_keys` / `set_to_array`: the order of the real hash container is unspecified and the
-      -- harness takes the ascending order of the RENAMED texts; the model's handles are numbered
-      -- by allocation, so the ascending order has to be taken after renaming here as well
-      let c' :=
-        match res, (c == .mapKeys || c == .setToArray) with
-        | .val (some h), true =>
-          match tget c'.tbl h with
-          | some (.list l) =>
-            let names := see r.names c'.tbl h
-            let key (i : Item) : String := String.ofList (rename names i.render)
-            { c' with tbl := tinsert c'.tbl h (.list ((l.toArray.qsort fun a b => key a < key b).toList)) }
-          | _ => c'
-        | _, _ => c'
       match res with
       | .val o => pushVal r { r.st with coll := c' } o
       | .err => { r with st := { r.st with coll := c' }, raw := r.raw.push .err, outs := r.outs.push "E" }
